@@ -115,8 +115,8 @@ def time_ops(n1, n2, gen=False):
 def freq_ops(mem, rot, count, lin=True, with8=False):
     """`count` selections starting at rotation `rot` from the pools of the admissible fft sizes"""
     res = []
-    pools = ([(4, SEL4)] if mem < 4 else []) + ([(2, SEL2)] if mem < 2 else []) + ([(1, SEL1)] if mem < 1 else []) + \
-            ([(8, SEL8)] if with8 else [])
+    # every fft size for every profile: a response longer than the fft size aliases (delay mod fft)
+    pools = [(4, SEL4), (2, SEL2), (1, SEL1)] + ([(8, SEL8)] if with8 else [])
     flat = [(f, k, v) for f, pool in pools for k, v in pool]
     for j in range(count):
         f, k, v = flat[(rot + j * 5) % len(flat)]
@@ -151,8 +151,7 @@ def configs_for(tier, seed):
         fams = ants if thorough else [ants[(i + k) % 4] for k in range(2)]
         for j, ant in enumerate(fams):
             ops = time_ops(2 + (i + j) % 2, 4 + (i + j) % 2, gen=(j == 0))
-            if mem < 4 or thorough:
-                ops += freq_ops(mem, rot + 3 * i + j, 4 if thorough else 3, lin=(j == 0), with8=thorough)
+            ops += freq_ops(mem, rot + 3 * i + j, 4 if thorough else 3, lin=(j == 0), with8=thorough)
             if ant != (0, 0) or i % 4 == 0:
                 ops += dirs
             add("tdl", name, ant, ops=ops, variant=i + j, maxpos=mp if ant != (2, 3) or thorough else 10,
@@ -732,7 +731,7 @@ def run(ctx):
                 "table length and every discretisation profile of the stated domains; every transition is executed on the real "
                 "class after a covering history; distinct = (configuration, state, call) triples")
     ctx.assumptions += ["fading samples come from a table-driven FadingSampleGenerator subclass (public extension point)",
-                        "frequency-domain cases keep the channel memory below the fft size (np.fft.fft truncates otherwise: C02)",
+                        "a response longer than the fft size must alias onto delay mod fft (the DFT of the reported response)",
                         "exact fft sizes 1, 2, 4 (Gaussian rationals) and 8 (Q(zeta_8), lib/Cyc2); half-sample ties only with dyadic "
                         "sampling intervals",
                         "tolerance 1e-9 relative"]
